@@ -17,7 +17,7 @@ import json
 import random
 import re
 
-from ..core import MachineryError, emit_behaviours, model_check, pool_map, run_tlc, sany, validate_traces
+from ..core import MachineryError, emit_behaviours, model_check, pool_map, run_parallel, run_tlc, sany, validate_traces
 from ..env import Conn, LoggerStub, ServerStub, boot
 
 META = {
@@ -430,7 +430,7 @@ class _Rnd:
         self.rnd = random.Random(seed)
 
     def random(self):
-        return self.rnd.choice([0.0, 0.125, 0.25, 0.5, 0.75, 0.875, 1 - 2.0 ** -10, 2.0 ** -10])
+        return self.rnd.choice([0.0, 0.0, 0.125, 0.25, 0.5, 0.75, 0.875, 0.875])
 
     def __getattr__(self, name):
         return getattr(random, name)
@@ -449,10 +449,13 @@ def _run_sim(case, strategy=None):
     extra = [x for x in (shape if shape != 'none' else None, 'jitter' if jit or case.get('jitpar') else None, 'xp') if x]
     cfg = {'description': '', 'extra_params': {'value': ','.join(extra)}, 'interval': {'value': TICK},
            'value': {'default': case['hv'] / S16}, 'target': {'default': case['target'] / S16}}
+    # extra parameters are created read-only (Parameter default) although SimBase gives them a write method:
+    # a configuration that wants them changeable says so
     if shape != 'none':
-        cfg[shape] = {'default': case['ramp'] * rate}
+        cfg[shape] = {'default': case['ramp'] * rate, 'readonly': False}
     if 'jitter' in extra:
         cfg['jitter'] = {'default': jit / S16}
+    cfg['xp'] = {'readonly': False}
     tr = [{'ev': 'init', 'shape': shape, 'hv': case['hv'], 'target': case['target'],
            'ramp': case['ramp'] if shape != 'none' else 0, 'jit': jit}]
     info = {}
@@ -482,22 +485,22 @@ def _run_sim(case, strategy=None):
                 req('do', 'm:stop', None)
                 tr.append({'ev': 'stop', 'target': _a16(m.target), 'status': st()})
             elif act == 'ramp':
-                req('change', 'm:' + shape, arg * rate)
+                req('change', 'm:' + m.parameters[shape].export, arg * rate)
                 tr.append({'ev': 'ramp', 'r': arg})
             elif act == 'read':
                 rep = req('read', 'm:value', None)
                 tr.append({'ev': 'read', 'v': _a16(rep[2][0])})
             elif act == 'setx':
-                req('change', 'm:xp', arg / S16)
+                req('change', 'm:' + m.parameters['xp'].export, arg / S16)
                 tr.append({'ev': 'setx', 'v': arg})
             elif act == 'readx':
-                rep = req('read', 'm:xp', None)
+                rep = req('read', 'm:' + m.parameters['xp'].export, None)
                 tr.append({'ev': 'readx', 'v': _a16(rep[2][0])})
         info['done'] = True
 
     with ds.Patch(sim, mb, extra={'frappy.simulation': {'random': _Rnd(case.get('seed', 0))}}):
         s.spawn('client', client)
-        s.stop_when = lambda: info.get('done')
+        s.stop_when = lambda: s.threads['client'].finished
         s.run()
     exc = {n: repr(t.exc) for n, t in s.threads.items() if t.exc is not None}
     return tr, exc, (s.deadlock or s.livelock) and not info.get('done')
@@ -542,28 +545,70 @@ def _sim_random(args):
     return (case,) + _run_sim(case)
 
 
-def _check_sequencer(chk, quick):
+def _devs(extra):
+    devs = {}
+    for i, js in extra['DEVS']:
+        d = set(json.loads(js))
+        devs[i] = d if i not in devs else min(devs[i], d, key=len)
+    return devs
+
+
+def _corrupt_must_be_rejected(module, cfg, trace, mutate):
+    """binding self-test: a recorded execution with one corrupted field must not be accepted"""
+    bad = json.loads(json.dumps(trace))
+    mutate(bad)
+    verdicts, _, _ = validate_traces(module, [trace, bad], cfg, timeout=300)
+    if verdicts[0] is not None or verdicts[1] is None:
+        raise MachineryError(f'{module}: self-test failed (original accepted: {verdicts[0] is None}, '
+                             f'corrupted rejected: {verdicts[1] is not None})')
+
+
+def run(chk):
     import time as _t
+    quick = chk.tier == 'quick'
     t0 = _t.time()
     stage = {}
-    for m in ('Sequencer', 'Gen_Sequencer', 'Trace_Sequencer'):
+    chk.rule = ('sequencer: every behaviour of Gen_Sequencer (start / stop / refused start at every position of every '
+                'sequence over the step kinds, to the depth bound) replayed on the real mixin with state comparison '
+                'after each step; random client scripts (2-3 client threads) under random schedules and 4 small scripts '
+                'under all schedules with bounded preemptions, validated by Trace_Sequencer. simulation: every action '
+                'sequence of Gen_SimDrive (target / stop / ramp / read / extra parameter / tick) executed on the real '
+                'SimDrivable, observations after every step judged by Trace_SimDrive, plus random longer histories with '
+                'jitter. A case is distinct by its action sequence / (script, schedule); non-trivial = at least one step '
+                'function returned / the hardware value moved')
+    for m in ('Sequencer', 'Gen_Sequencer', 'Trace_Sequencer', 'SimDrive', 'Gen_SimDrive', 'Trace_SimDrive'):
         sany(m)
-    # 1 design
-    chk.add_tlc(model_check('Sequencer', 'MC_Sequencer_quick.cfg' if quick else 'MC_Sequencer_thorough.cfg', timeout=900))
-    r = run_tlc('Sequencer', 'MC_Sequencer_asimpl.cfg', timeout=300)
-    if not (r.violated and r.violated[1] == 'StopNoNewStep'):       # vacuity: the property must be able to fail
-        raise MachineryError('MC_Sequencer_asimpl.cfg (code as it stands, stop examined only after a call) is '
-                             'expected to violate StopNoNewStep: ' + str(r.violated or r.error))
-    stage['design'] = round(_t.time() - t0, 1)
-    # 2 spec -> code
-    behs = []
-    for cfg in (('Gen_Sequencer_quick_stop.cfg', 'Gen_Sequencer_quick_refused.cfg') if quick else
-                ('Gen_Sequencer_thorough_stop.cfg', 'Gen_Sequencer_thorough_refused.cfg', 'Gen_Sequencer_thorough_kinds.cfg')):
-        r, b = emit_behaviours('Gen_Sequencer', cfg, maximal_only=True, timeout=900)
+    tier = 'quick' if quick else 'thorough'
+    # ---- 1 design checks and behaviour emission: independent TLC runs side by side
+    seq_gens = [f'Gen_Sequencer_{tier}_stop.cfg', f'Gen_Sequencer_{tier}_refused.cfg'] + \
+               ([] if quick else ['Gen_Sequencer_thorough_kinds.cfg'])
+    sim_gens = [f'Gen_SimDrive_{tier}_move.cfg', f'Gen_SimDrive_{tier}_ramp.cfg', f'Gen_SimDrive_{tier}_store.cfg']
+    thunks = [lambda: model_check('Sequencer', f'MC_Sequencer_{tier}.cfg', timeout=1200),
+              lambda: run_tlc('Sequencer', 'MC_Sequencer_asimpl.cfg', timeout=300),
+              lambda: model_check('SimDrive', f'MC_SimDrive_{tier}.cfg', timeout=1200),
+              lambda: run_tlc('SimDrive', 'MC_SimDrive_asimpl.cfg', timeout=300)]
+    if not quick:
+        thunks.append(lambda: model_check('SimDrive', 'MC_SimDrive_jitter.cfg', timeout=1200))
+    for cfg in seq_gens:
+        thunks.append(lambda cfg=cfg: emit_behaviours('Gen_Sequencer', cfg, maximal_only=True, timeout=1200))
+    for cfg in sim_gens:
+        thunks.append(lambda cfg=cfg: emit_behaviours('Gen_SimDrive', cfg, maximal_only=False, timeout=1200))
+    out = run_parallel(thunks, width=4)
+    ngen = len(seq_gens) + len(sim_gens)
+    mcs, gens = out[:len(out) - ngen], out[len(out) - ngen:]
+    for r, prop in ((mcs[1], 'StopNoNewStep'), (mcs[3], 'BusyOnChange')):      # vacuity: the properties can fail
+        if not (r.violated and r.violated[1] == prop):
+            raise MachineryError(f'the as-implemented model is expected to violate {prop}: {r.violated or r.error}')
+    for r in (mcs[0], mcs[2]) + tuple(mcs[4:]):
         chk.add_tlc(r)
-        behs += b
-    alts = _alts(behs)
-    jobs = list(zip(behs, alts))
+    seq_behs, sim_behs = [], []
+    for (r, b), cfg in zip(gens, seq_gens + sim_gens):
+        chk.add_tlc(r)
+        (seq_behs if cfg.startswith('Gen_Sequencer') else sim_behs).extend(b)
+    stage['tlc'] = round(_t.time() - t0, 1)
+
+    # ---- 2 sequencer, spec -> code
+    jobs = list(zip(seq_behs, _alts(seq_behs)))
     if quick:
         jobs = jobs[chk.seed % 2::2]
         chk.notes['sequencer_behaviours_sampled'] = '1 of 2'
@@ -577,32 +622,31 @@ def _check_sequencer(chk, quick):
     if jobs:
         chk.sample({'sequencer_behaviour': [{k: v for k, v in s.items() if k in ('act', 'seq', 'ev')}
                                             for s in jobs[len(jobs) // 2][0]]})
-    stage['replay'] = round(_t.time() - t0, 1)
-    # 3 code -> spec: random client scripts under random schedules, small scripts under enumerated schedules
+    stage['seq_replay'] = round(_t.time() - t0, 1)
+
+    # ---- 3 sequencer, code -> spec: random client scripts under random schedules, small scripts under enumerated schedules
     n = 400 if quick else 6000
     runs = pool_map(_seq_random, [(chk.seed * 100003 + i,) for i in range(n)])
     traces = [r[1] for r in runs]
     origin = [{'world': 'seqtrace', 'scenario': r[0], 'choices': r[2]} for r in runs]
     crashes = [(r[3], r[4]) for r in runs]
     seen = set()
-    for idx, out in pool_map(_seq_explore, [(i, 150 if quick else 4000, 2 if quick else 3) for i in range(len(SEQ_SMALL))],
-                             chunksize=1):
-        for tr, flat, exc, stuck in out:
+    for idx, out_ in pool_map(_seq_explore, [(i, 150 if quick else 4000, 2 if quick else 3) for i in range(len(SEQ_SMALL))],
+                              chunksize=1):
+        for tr, flat, exc, stuck in out_:
             if (idx, tuple(flat)) in seen:
                 continue
             seen.add((idx, tuple(flat)))
             traces.append(tr)
             origin.append({'world': 'seqtrace', 'scenario': SEQ_SMALL[idx], 'choices': flat, 'small': idx})
             crashes.append((exc, stuck))
-    verdicts, st, trn, extra = validate_traces('Trace_Sequencer', traces, 'Trace_Sequencer.cfg', timeout=900,
+    verdicts, st, trn, extra = validate_traces('Trace_Sequencer', traces, 'Trace_Sequencer.cfg', timeout=1200,
                                                collect=('DEVS',))
     chk.states += st
     chk.transitions += trn
-    devs = {}
-    for i, js in extra['DEVS']:
-        d = set(json.loads(js))
-        devs[i] = d if i not in devs else min(devs[i], d, key=len)
+    devs = _devs(extra)
     count = {}
+    clean = None
     for i, v in verdicts.items():
         chk.impl_traces += 1
         chk.case(('seqtrace', json.dumps(origin[i]['scenario'], sort_keys=True), tuple(origin[i]['choices'])),
@@ -618,24 +662,71 @@ def _check_sequencer(chk, quick):
             chk.violation({'module': 'Sequencer', 'trace_event': ev.get('ev'), 'th': ev.get('th'), 'code': ev.get('code', '')},
                           dict(origin[i], failed_at=l, event=ev, trace=traces[i]))
         else:
+            if clean is None and not devs.get(i) and any(e['ev'] == 'ret' for e in traces[i]):
+                clean = traces[i]
             for dev in sorted(devs.get(i, ())):
                 count[dev] = count.get(dev, 0) + 1
                 chk.violation({'module': 'Sequencer', 'deviation': dev}, dict(origin[i], trace=traces[i]))
     chk.notes['sequencer_deviations_needed'] = count
     chk.notes['sequencer_explored_schedules'] = len(seen)
     chk.sample({'sequencer_trace_prefix': traces[0][:8]})
-    stage['traces'] = round(_t.time() - t0, 1)
-    chk.notes['sequencer_wall_until_end_of_stage'] = stage
+    stage['seq_traces'] = round(_t.time() - t0, 1)
 
+    # ---- 4 simulation: TLC's action sequences and random histories executed, observations judged by TLC
+    keys = {}
+    for b in sim_behs:
+        keys.setdefault(json.dumps(_sim_case_from_behaviour(b), sort_keys=True), b)
+    sim_jobs = [keys[k] for k in sorted(keys)]
+    if quick:
+        step = 8
+        sim_jobs = sim_jobs[chk.seed % step::step]
+        chk.notes['simulation_behaviours_sampled'] = f'1 of {step}'
+    runs = pool_map(_sim_replay, sim_jobs) + pool_map(_sim_random, [(chk.seed * 7919 + i,) for i in range(300 if quick else 5000)])
+    straces = [r[1] for r in runs]
+    verdicts, st, trn, extra = validate_traces('Trace_SimDrive', straces, 'Trace_SimDrive.cfg', timeout=1200,
+                                               collect=('DEVS',))
+    chk.states += st
+    chk.transitions += trn
+    devs = _devs(extra)
+    count = {}
+    sclean = None
+    for i, v in verdicts.items():
+        case, tr, exc, stuck = runs[i]
+        chk.impl_traces += 1
+        chk.case(('sim', json.dumps(case, sort_keys=True)), len({e.get('hv', e.get('val')) for e in tr if e['ev'] == 'tick'}) > 1)
+        if exc or stuck:
+            chk.violation({'module': 'SimDrive', 'kind': 'exception' if exc else 'stuck',
+                           'exc': sorted(exc.values())[0][:60] if exc else ''}, {'world': 'sim', 'case': case, 'exceptions': exc})
+        elif v is not None:
+            l = v[0]
+            ev = tr[l - 1] if 0 < l <= len(tr) else {}
+            chk.violation({'module': 'SimDrive', 'trace_event': ev.get('ev'), 'shape': case['shape'], 'jitter': bool(case.get('jit'))},
+                          {'world': 'sim', 'case': case, 'failed_at': l, 'event': ev, 'trace': tr})
+        else:
+            if sclean is None and not devs.get(i) and sum(1 for e in tr if e['ev'] == 'tick') > 2:
+                sclean = tr
+            for dev in sorted(devs.get(i, ())):
+                count[dev] = count.get(dev, 0) + 1
+                chk.violation({'module': 'SimDrive', 'deviation': dev}, {'world': 'sim', 'case': case, 'trace': tr})
+    chk.notes['simulation_deviations_needed'] = count
+    if straces:
+        chk.sample({'simulation_trace': straces[len(straces) // 2][:8]})
+    stage['sim'] = round(_t.time() - t0, 1)
 
-def run(chk):
-    quick = chk.tier == 'quick'
-    chk.rule = ('sequencer: every behaviour of Gen_Sequencer (start / stop / refused start at every position of every '
-                'sequence over the step kinds, to the depth bound) replayed on the real mixin with state comparison '
-                'after each step; random client scripts (2-3 client threads) under random schedules and 4 small scripts '
-                'under all schedules with bounded preemptions, validated by Trace_Sequencer. A case is distinct by its '
-                'action sequence / (script, schedule); non-trivial = at least one step function returned / one wait ended')
-    _check_sequencer(chk, quick)
+    # ---- 5 binding self-test: a corrupted recording must be rejected
+    if clean:
+        def mut(tr):
+            e = next(e for e in tr if e['ev'] == 'ret')
+            e['k'] += 1
+        _corrupt_must_be_rejected('Trace_Sequencer', 'Trace_Sequencer.cfg', clean, mut)
+    if sclean:
+        def mut2(tr):
+            e = [e for e in tr if e['ev'] == 'tick'][-1]
+            e['status'] = 'busy' if e['status'] == 'idle' else 'idle'
+        _corrupt_must_be_rejected('Trace_SimDrive', 'Trace_SimDrive.cfg', sclean, mut2)
+    chk.notes['binding_selftest'] = {'sequencer': bool(clean), 'simulation': bool(sclean)}
+    stage['selftest'] = round(_t.time() - t0, 1)
+    chk.notes['wall_until_end_of_stage'] = stage
     chk.exhaustive = False
 
 
@@ -651,6 +742,11 @@ def replay(chk, rep):
         sc = d['scenario']
         sc['threads'] = {n: [tuple(o) for o in ops] for n, ops in sc['threads'].items()}
         tr, _, exc, stuck = _run_seq_scenario(sc, ds.GuidedStrategy(d['choices']))
+        for j, e in enumerate(tr, 1):
+            print(j, e)
+        print('exceptions', exc, 'stuck', stuck, 'failed_at', d.get('failed_at'))
+    elif d.get('world') == 'sim':
+        tr, exc, stuck = _run_sim(d['case'])
         for j, e in enumerate(tr, 1):
             print(j, e)
         print('exceptions', exc, 'stuck', stuck, 'failed_at', d.get('failed_at'))
